@@ -15,7 +15,7 @@ TRUSTED = [
     "the file system as an oracle: get_files_from_dir / zone_from_file / hosts_from_file are stand-ins whose results are functions of the path (one consistent snapshot per load)",
     "Zones::new / insert_merge, Hosts::default / merge, Zone::from(Hosts): stand-ins that log their arguments in order (their meaning: unit zone_merge)",
     "get_files_from_dir (module `listing` of the generated unit): tokio::fs::read_dir / next_entry / DirEntry::path as stand-ins over an oracle sequence of entries, Path::is_dir as an uninterpreted predicate, `out.sort()` as a sorted rearrangement (R44)",
-    "R45 / R54 (reload): the body of reload_task's loop is read as `reload_once__(stream__, lock__, args) -> ZonesLock` (block text verbatim; added: the `let mut` rebindings at entry, the lock as the result); `let mut g = zones_lock.write().await; *g = v;` is read as `zones_lock.replace(v)` on a stand-in that records the configuration in force; the signal stream is a stand-in; that readers see either the old or the new value is the RwLock's, not proved",
+    "R45 (reload): the body of reload_task's loop is read as `reload_once__(stream__, lock__, args) -> ZonesLock` (block text verbatim; added: the `let mut` rebindings at entry, the lock as the result); the lock is a stand-in whose `write()` hands out `&mut Zones` - the value in force - for the time of the borrow (tokio's write guard derefs to it); `Zones::merge` appends to the stand-in's log; the signal stream is a stand-in; that readers see either the old or the new value is the RwLock's, not proved",
     "R42: `Vec::from(slice)` as a shim with the same sequence; `Path::new(p)` dropped (the stand-ins take the PathBuf); R43: `hosts.into()` as shim_hosts_into_zone(hosts)",
 ]
 
@@ -231,14 +231,19 @@ impl SignalStream {
     #[verifier::external_body]
     pub fn recv(&mut self) -> (r: Option<()>) { unimplemented!() }
 }
-// R9: Arc<RwLock<Zones>>; cur: the configuration in force (what was merged into it, in order); writes: how often it was replaced
-pub struct ZonesLock { pub cur: Ghost<Seq<Zone>>, pub writes: Ghost<nat> }
+// R9: Arc<RwLock<Zones>>; cur: the configuration in force (a Zones stand-in: what was merged into it, in order).  `write()` hands out the
+// guarded value for the time of the borrow (tokio's RwLockWriteGuard derefs to it): whatever the task does to it is what is in force after
+pub struct ZonesLock { pub cur: Zones }
 impl ZonesLock {
-    // R54: `let mut lock = zones_lock.write().await; *lock = zones;` - the guarded value is replaced as a whole
     #[verifier::external_body]
-    pub fn replace(&mut self, zones: Zones)
-        ensures final(self).cur@ == zones.log@, final(self).writes@ == old(self).writes@ + 1,
+    pub fn write(&mut self) -> (r: &mut Zones)
+        ensures *r == old(self).cur, final(self).cur == *final(r),
     { unimplemented!() }
+}
+impl Zones {
+    // Zones::merge: everything of the other configuration is merged into this one (meaning: unit zone_merge)
+    #[verifier::external_body]
+    pub fn merge(&mut self, other: Zones) ensures final(self).log@ == old(self).log@ + other.log@ { unimplemented!() }
 }
 // the configuration the files named by the arguments denote at this moment, if every one of them loads
 pub open spec fn fresh_config(a: Args) -> Option<Seq<Zone>> {
@@ -257,10 +262,9 @@ RELOAD_SPEC = {
     "rewrites": [("R30", r"\s*\.instrument\(tracing::\w+!\((?:[^()]|\([^()]*\))*\)\)", ""), ("R32", r"\s*\.await\b", ""),
                  ("R29", r"let start = Instant::now\(\);", ""),
                  ("R42", r"&args\.(hosts_file|hosts_dir|zone_file|zones_dir)\b", r"shim_paths(&args.\1)"),
-                 ("R54", r"let mut (\w+) = zones_lock\.write\(\);\s*\*\1 = ([^;]+);", r"zones_lock.replace(\2);")],
+                 ],
     "contract": """    ensures
-        fin.cur@ == (match fresh_config(args) { Some(z) => z, None => lock__.cur@ }), // [C19:the_configuration_is_replaced_as_a_whole_by_the_freshly_loaded_one_or_stays_fully_in_force]
-        fin.writes@ <= lock__.writes@ + 1, // [C19:the_configuration_is_replaced_at_most_once_per_signal]""",
+        fin.cur.log@ == (match fresh_config(args) { Some(z) => z, None => lock__.cur.log@ }), // [C19:the_configuration_is_replaced_as_a_whole_by_the_freshly_loaded_one_or_stays_fully_in_force]""",
     "entry": "let mut stream = stream__; let mut zones_lock = lock__; // R45: the captured values, mutable as in the task",
 }
 
